@@ -30,20 +30,20 @@ def run(ctx):
         prog, info = load_program(cfg, "e57")
         ctx.configs[cfg] = info
         ctx.cfg = cfg
-        determinism_rules.no_hidden_inputs(ctx, prog, "R1")
+        ctx.call(determinism_rules.no_hidden_inputs, prog, "R1")
         if cfg == "lib":
-            xml_rules.type_attributes(ctx, prog, "R2")
-            xml_rules.prototype_order(ctx, prog, "R3")
-            width_rules.width_formula(ctx, prog, "R4")
-            codec_rules.stored_form(ctx, prog, "R4")
-            codec_rules.add_bits_shape(ctx, prog, "R4")
-            codec_rules.extract_window(ctx, prog, "R4")
-            codec_rules.append_shape(ctx, prog, "R4")
-            xml_rules.escaping_gate(ctx, prog, "R4")
-            header_rules.publication_order(ctx, prog, "R4")
-            pcw_rules.data_offset_provenance(ctx, prog, "R4")
-            page_rules.read_current_page_shape(ctx, prog, "R4")
-            xml_rules.inverse_maps(ctx, prog, "R5", "R5", "R5")
-            xml_rules.string_values_unchanged(ctx, prog, "R5")
+            ctx.call(xml_rules.type_attributes, prog, "R2")
+            ctx.call(xml_rules.prototype_order, prog, "R3")
+            ctx.call(width_rules.width_formula, prog, "R4")
+            ctx.call(codec_rules.stored_form, prog, "R4")
+            ctx.call(codec_rules.add_bits_shape, prog, "R4")
+            ctx.call(codec_rules.extract_window, prog, "R4")
+            ctx.call(codec_rules.append_shape, prog, "R4")
+            ctx.call(xml_rules.escaping_gate, prog, "R4")
+            ctx.call(header_rules.publication_order, prog, "R4")
+            ctx.call(pcw_rules.data_offset_provenance, prog, "R4")
+            ctx.call(page_rules.read_current_page_shape, prog, "R4")
+            ctx.call(xml_rules.inverse_maps, prog, "R5", "R5", "R5")
+            ctx.call(xml_rules.string_values_unchanged, prog, "R5")
     ctx.cfg = None
-    determinism_rules.controls(ctx)
+    ctx.call(determinism_rules.controls)
